@@ -1160,7 +1160,9 @@ def _make_last_spec_captured(last: SubprocSpec):
     # redirect stdout to stderr, if we should
     if isinstance(last.stdout, int) and last.stdout == 2:
         # need to use private interface to avoid duplication.
-        last._stdout = last.stderr
+        # For $() stderr was left None above (it stays on the shell's
+        # stderr), and None in the stdout slot would mean "inherit stdout".
+        last._stdout = last.stderr if last.stderr is not None else sys.stderr
     # redirect stderr to stdout, if we should
     if callable_alias and last.stderr == subprocess.STDOUT:
         last._stderr = last.stdout
